@@ -42,6 +42,11 @@ TRACE = {'C01': _B % 'WorldTrace.tla', 'C02': _B % 'WorldTrace.tla', 'C05': _B %
          'C13': '; long behaviours from tlc -simulate on LoopSim.tla replayed as well',
          'C14': '; long behaviours from tlc -simulate on LoopSim.tla replayed as well'}
 
+_G = '; the composed module Game.tla (SimpleLoop running real worlds with a sleeping coroutine, handles cleared and reloaded) model-checked and replayed as well'
+for _p in ('C08', 'C13', 'C14'):
+    TRACE[_p] += _G
+
+
 def main():
     checks = []
     for pid, (spec, text, ref) in sorted(CHECKS.items()):
